@@ -14,7 +14,7 @@ implemented exactly: registers the pass eliminated start out holding their const
 import copy
 import hashlib
 
-from .. import gen, shrink, world, transforms
+from .. import gen, shrink, world, transforms, common
 from ..common import Violation, HarnessError, mask
 from ..netlist import Netlist, script_shape
 from ..refsim import RefSim, DoubleWrite
@@ -76,6 +76,9 @@ def gen_case(streams, tier):
         # the design reaches the passes with its Outputs driven by gates directly (the public
         # direct_connect_outputs pass was run on it first)
         'prep_dco': g.random() < 0.3,
+        # optimize() is first called while one net of the design is still missing (refused: a
+        # wire is used but not driven yet); the net is then added and the passes run for real
+        'early_optimize': g.randrange(1 << 16) if (kind == 'word' and stage is None and g.random() < 0.2) else None,
         'sched': world.gen_sched(streams, with_iter=False),
     }
 
@@ -144,6 +147,25 @@ def run(case, res):
             except (pyrtl.PyrtlError, pyrtl.PyrtlInternalError):
                 res.probes.hit('early_optimize_refused')
         stage = dict(case['stage'], hook=early_optimize)
+    eo = case.get('early_optimize')
+    cands = [i for i, n in enumerate(script['nets']) if n['d']]
+    if eo is not None and stage is None and cands:
+        import copy as _copy
+        script = _copy.deepcopy(script)
+        held = script['nets'].pop(cands[eo % len(cands)])
+        script['nets'].append(held)
+
+        def early(built):
+            try:
+                with transforms.quiet():
+                    with pyrtl.set_working_block(built.block, no_sanity_check=True):
+                        pyrtl.optimize(block=built.block)
+            except (pyrtl.PyrtlError, pyrtl.PyrtlInternalError):
+                res.faults.hit('optimize_refused_on_the_unfinished_design')
+            else:
+                raise common.Inconclusive('optimize accepted a design with a net missing')
+        stage = {'mems': len(script['mems']), 'wires': len(script['wires']),
+                 'nets': len(script['nets']) - 1, 'hook': early}
     b = world.build_dut(script, sched, stage=stage)
     try:
         with transforms.quiet():
